@@ -81,6 +81,13 @@ static bool is_hash(Token *tok) {
   return tok->at_bol && !tok->origin && equal(tok, "#");
 }
 
+// A `#` alone on its line is a null directive. A directive ends with
+// its line (C11 6.10p2), so whatever begins the next line is not the
+// directive's name.
+static bool is_null_directive(Token *tok) {
+  return is_hash(tok) && tok->next->at_bol;
+}
+
 // Some preprocessor directives such as #include allow extraneous
 // tokens before newline. This function skips such tokens.
 static Token *skip_line(Token *tok) {
@@ -190,6 +197,11 @@ static char *vt_directive(Token *tok) {
 
 static Token *skip_cond_incl2(Token *tok) {
   while (tok->kind != TK_EOF) {
+    if (is_null_directive(tok)) {
+      tok = tok->next;
+      continue;
+    }
+
     if (is_hash(tok) &&
         (equal(tok->next, "if") || equal(tok->next, "ifdef") ||
          equal(tok->next, "ifndef"))) {
@@ -220,6 +232,11 @@ static Token *skip_cond_incl2(Token *tok) {
 // Nested `#if` and `#endif` are skipped.
 static Token *skip_cond_incl(Token *tok) {
   while (tok->kind != TK_EOF) {
+    if (is_null_directive(tok)) {
+      tok = tok->next;
+      continue;
+    }
+
     if (is_hash(tok) &&
         (equal(tok->next, "if") || equal(tok->next, "ifdef") ||
          equal(tok->next, "ifndef"))) {
@@ -436,7 +453,7 @@ static void read_macro_definition(Token **rest, Token *tok) {
   char *name = strndup(tok->loc, tok->len);
   tok = tok->next;
 
-  if (!tok->has_space && equal(tok, "(")) {
+  if (!tok->has_space && !tok->at_bol && equal(tok, "(")) {
     // Function-like macro
     char *va_args_name = NULL;
     MacroParam *params = read_macro_params(&tok, tok->next, &va_args_name);
@@ -963,7 +980,7 @@ static char *read_include_filename(Token **rest, Token *tok, bool *is_dquote) {
 //   #endif
 static char *detect_include_guard(Token *tok) {
   // Detect the first two lines.
-  if (!is_hash(tok) || !equal(tok->next, "ifndef"))
+  if (!is_hash(tok) || is_null_directive(tok) || !equal(tok->next, "ifndef"))
     return NULL;
   tok = tok->next->next;
 
@@ -973,12 +990,13 @@ static char *detect_include_guard(Token *tok) {
   char *macro = strndup(tok->loc, tok->len);
   tok = tok->next;
 
-  if (!is_hash(tok) || !equal(tok->next, "define") || !equal(tok->next->next, macro))
+  if (!is_hash(tok) || is_null_directive(tok) || !equal(tok->next, "define") ||
+      !equal(tok->next->next, macro))
     return NULL;
 
   // Read until the end of the file.
   while (tok->kind != TK_EOF) {
-    if (!is_hash(tok)) {
+    if (!is_hash(tok) || is_null_directive(tok)) {
       tok = tok->next;
       continue;
     }
@@ -1114,6 +1132,11 @@ static Token *preprocess2(Token *tok) {
 
     Token *start = tok;
     tok = tok->next;
+
+    // `#`-only line is legal. It's called a null directive. What begins
+    // the next line is not a directive name.
+    if (tok->at_bol)
+      continue;
 
     if (equal(tok, "include")) {
       bool is_dquote;
@@ -1271,7 +1294,7 @@ static Token *preprocess2(Token *tok) {
       continue;
     }
 
-    if (equal(tok, "pragma") && equal(tok->next, "once")) {
+    if (equal(tok, "pragma") && !tok->next->at_bol && equal(tok->next, "once")) {
       hashmap_put(&pragma_once, tok->file->name, (void *)1);
 #ifdef CHIBICC_VERIF
       if (vtrace_on())
@@ -1290,10 +1313,6 @@ static Token *preprocess2(Token *tok) {
 
     if (equal(tok, "error"))
       error_tok(tok, "error");
-
-    // `#`-only line is legal. It's called a null directive.
-    if (tok->at_bol)
-      continue;
 
     error_tok(tok, "invalid preprocessor directive");
   }
